@@ -51,12 +51,21 @@ def absmv(M, x):
     return A @ np.abs(np.asarray(x, dtype=float).ravel())
 
 
-def residual_err(M, x, b, rows=None):
-    """normalised residual of M x = b, row by row: |Mx-b| / (|M||x| + |b|)"""
+def residual_err(M, x, b, rows=None, solver_output=False):
+    """normalised residual of M x = b, row by row: |Mx-b| / (|M||x| + |b|).
+
+    solver_output=True: x is the output of a direct sparse solve.  Gaussian elimination with partial pivoting is
+    backward stable norm-wise, not row-wise: every row may carry an absolute residual of order n*eps*max_j(|M||x|+|b|)_j
+    whatever its own scale, so that floor is added to each row's scale (a correct solve on a badly row-scaled system
+    must not alarm; a wrong coefficient of relative size O(1) in a row is still seen unless the row's scale is
+    more than ~1e11 below the largest one)."""
     x = np.asarray(x, dtype=float).ravel()
     b = np.asarray(b, dtype=float).ravel()
     r = sp.csr_array(M) @ x - b
     s = absmv(M, x) + np.abs(b)
+    if solver_output and s.size:
+        smax = float(np.max(s[np.isfinite(s)])) if np.any(np.isfinite(s)) else 0.0
+        s = s + (64.0 * len(s) * np.finfo(float).eps / TOL) * smax
     if rows is not None:
         r, s = r[rows], s[rows]
     return nerr(r, 0.0, s)
